@@ -1,6 +1,7 @@
 import Zog.Props.FactsOK
 import Zog.Laws
 import Zog.Exact
+import Zog.ExactAll
 
 /-!
 # C02 — every violation is reported exactly once, where it occurred, and nothing else
@@ -105,6 +106,15 @@ theorem no_issue_iff_no_violation (env : Env) (m : Mode) (s : Schema) (hp : s.po
     toIssueMap (Engine.run env Gen.facts m s tag v d).2.sink = [] ↔ NoViol env m s tag [] v d := by
   rw [nil_iff_no_issue, engine_is_spec]
   exact clean_iff env m s hp hw tag [] v d
+
+/-- **…and for EVERY well-formed schema, PostTransforms included:** no issue iff nothing is wrong at
+    any node AND every PostTransform that runs succeeds (`NoViolU`; a node's tests are judged on the
+    value it has when they run, its PostTransforms on what the tests left). -/
+theorem no_issue_iff_no_violation_all (env : Env) (m : Mode) (s : Schema) (hw : s.WF)
+    (tag : Option String) (v : Val) (d : DVal) :
+    toIssueMap (Engine.run env Gen.facts m s tag v d).2.sink = [] ↔ NoViolU env m s tag [] v d := by
+  rw [nil_iff_no_issue, engine_is_spec]
+  exact cleanU_iff env m s hw tag [] v d
 
 /-- a violation anywhere ⇒ at least one issue (contrapositive reading) -/
 theorem violation_is_reported (env : Env) (m : Mode) (s : Schema) (hp : s.postFree = true) (hw : s.WF)
